@@ -109,3 +109,19 @@ class StepBudget:
         else:  # pragma: no cover
             sys.setprofile(None)
         return False
+
+
+def settings_dict():
+    d = T.DUNGEON_MODE_CONSTANTS
+    return {"settings": {"performance_progress_list_var_name": T.PERF_VAR,
+                         "dungeon_mode_constants": {"closed": d[0], "open": d[1], "request": d[2], "open_request": d[3]}}}
+
+
+def write_settings(directory: str) -> str:
+    import json
+    import os
+
+    p = os.path.join(directory, "settings.json")
+    with open(p, "w") as fh:
+        json.dump(settings_dict(), fh)
+    return p
